@@ -44,6 +44,19 @@ CLAIMED = {
              "(anything outside it is exit 2, never a pass). User-defined PDU subclasses are outside the quantifier; "
              "find_pdu<T>(type) assumed called with its default argument.",
     ),
+    "C14": dict(
+        category="other",
+        design_ref="DESIGN.md section 3 / C14",
+        technique="static analysis: abstract interpretation over the clang CFG with linear guard facts and a small "
+                  "inequality prover (E-BOUNDS) on every matches_response override",
+        text="Decides clause 3 only - 'for every layer class and every buffer of any length, including zero, response "
+             "matching reads only inside the buffer': every dereference, struct overlay, memcmp/memcpy and the "
+             "(ptr + X, total_sz - X) hand-over to the inner layer in all matches_response overrides (incl. PDUCacher "
+             "instantiations) is proved in bounds from the guards that dominate it. One genuine defect found this way "
+             "(RadioTap::matches_response) was repaired with a fix: commit.",
+        note="Clauses 1-2 (mirrored replies are recognised, strangers are not) are value-level and NOT decided. Assumes "
+             "no overflow in additions of 32-bit lengths; little-endian arm only.",
+    ),
     "C17": dict(
         category="other",
         design_ref="DESIGN.md section 3 / C17",
